@@ -31,6 +31,20 @@ def dim_contract():
             got = norm(st.basic09_text(0))
             res.append(ob("dim/bounds %s hex=%d" % (list(bounds), hexb), got == exp, exp, got, "emitted bound = source bound + 1 in every dimension"))
         # string sizes: default and per-name
+        # sizes in every order inside one DIM statement (x, y, x must not lose the first group)
+        for default, sizes in ((80, {"arr_B$": 40}), (32, {"arr_B$": 40}), (80, {"arr_A$": 40, "arr_C$": 40}), (80, {"arr_A$": 40, "arr_B$": 50, "arr_C$": 40})):
+            st = E.BasicDimStatement([aref("A$", (5,)), aref("B$", (7,)), aref("C$", (9,)), E.BasicVar("D$", True)])
+            st.default_str_storage = default
+            st.strname_to_size = sizes
+            got = norm(st.basic09_text(0))
+            seen = {}
+            for ln in got.split("\n"):
+                m = re.match(r"^DIM (.*?)(: STRING\[(\d+)\])?$", ln)
+                if m:
+                    for d in m.group(1).split(", "):
+                        seen.setdefault(d, []).append(int(m.group(3)) if m.group(3) else 32)
+            want = {"arr_A$(6)": [sizes.get("arr_A$", default)], "arr_B$(8)": [sizes.get("arr_B$", default)], "arr_C$(10)": [sizes.get("arr_C$", default)], "D$": [default]}
+            res.append(ob("dim/one statement, sizes default=%d map=%s" % (default, sizes), seen == want, want, seen))
         for default, sizes in ((32, {}), (80, {}), (80, {"arr_N$": 40}), (32, {"Q$": 12})):
             st = E.BasicDimStatement([aref("N$", (5,)), E.BasicVar("Q$", True), aref("K", (3,)), E.BasicVar("Z", False)])
             st.default_str_storage = default
@@ -167,6 +181,9 @@ POSITIONS = {
     "temporary of a string function": "10 PRINT STR$(X);HEX$(Y)",
     "subscript of a READ target": "10 DATA 1\n20 READ A(LEN(B$))",
     "ELSE arm after ELSE IF": '10 IF K=1 THEN A$="1" ELSE IF K=2 THEN B$="2" ELSE M$="m":S(4)=K:L$(2)=M$',
+    "READ targets with an empty DATA item (read filter)": "10 DATA 1,,3\n20 READ A,Q(2),C",
+    "one DIM, only the middle name configured": '10 DIM A$(5),N$(7),C$(9),D$\n20 A$(1)="a":N$(1)="b":C$(1)="c":D$="d"',
+    "one DIM, first and last name configured": '10 DIM N$(5),B$(7),E$,N$\n20 N$(1)="a":B$(1)="b":E$="e":N$="n"',
 }
 
 
